@@ -924,7 +924,7 @@ impl Prop for C01 {
     fn runs(&self, tier: Tier) -> u64 {
         match tier {
             Tier::Quick => 40_000,
-            Tier::Thorough => 2_000_000,
+            Tier::Thorough => 1_200_000,
         }
     }
     fn rule(&self) -> &'static str {
